@@ -252,6 +252,14 @@ where
             return self.interp_array_into_1d(xs_1d, ys_1d, buffer_d);
         }
 
+        let expect = self.get_buffer_shape(xs.raw_dim());
+        assert!(
+            buffer.raw_dim() == expect,
+            "buffer has the wrong shape expected: {:?}, got: {:?}",
+            expect.slice(),
+            buffer.shape()
+        );
+
         for (index, &x) in xs.indexed_iter() {
             let current_dim = index.clone().into_dimension();
             let y = *ys
@@ -294,6 +302,12 @@ where
         Sqx: Data<Elem = Sd::Elem>,
         Sqy: Data<Elem = Sd::Elem>,
     {
+        assert!(
+            buffer.shape()[1..] == self.data.shape()[2..],
+            "buffer has the wrong shape expected: [_, {:?}], got: {:?}",
+            &self.data.shape()[2..],
+            buffer.shape()
+        );
         Zip::from(xs)
             .and(ys)
             .and(buffer.axis_iter_mut(Axis(0)))
